@@ -290,6 +290,16 @@ class ModelMixin2:
         syms = self.reachable(v, src, mark)
         if not syms:
             return v
+        # ancestors created after *mark* exist only in the source state: they travel with the value
+        extra = set()
+        for sym in syms:
+            e = src.heap.get(sym)
+            p = e.parent if isinstance(e, ElemE) else None
+            while p and p > mark and p not in extra and p not in syms and isinstance(src.heap.get(p), ElemE):
+                extra.add(p)
+                p = src.heap[p].parent
+        if extra:
+            syms = tuple(sorted(set(syms) | extra))
         saved = {}
         dst.serial = max(dst.serial, max(syms), src.serial)
         for sym in syms:
@@ -354,7 +364,22 @@ class ModelMixin2:
                 for _, y in e.fields:
                     visit_v(y)
         visit_v(v)
-        return tuple(sorted(out))
+        # an intermediate parent created after *since* that hangs below an owned element (e.g. the storyBody found
+        # under a per-iteration story element) belongs to the template as well; shared ancestors never do
+        owned = set(out)
+        for sym in list(out):
+            e = st.heap.get(sym)
+            if not isinstance(e, ElemE):
+                continue
+            chain = []
+            p = e.parent
+            while p and p > since and p not in owned and p in st.heap and isinstance(st.heap[p], ElemE):
+                chain.append(p)
+                p = st.heap[p].parent
+            if chain and p in owned:
+                owned.update(chain)
+                out.extend(chain)
+        return tuple(sorted(set(out)))
 
     def enumerate_spec(self, v: IterV, st: State, node):
         from .model import IterSpec
@@ -411,6 +436,9 @@ class ModelMixin2:
     # -- enumerate(start=<index>) protocol: the counter stays a valid position only while every
     #    iteration inserts exactly one node at it (DESIGN §2.3, IDX-ADVANCE)
     def loop_iter_start(self, st: State, depth, spec, count):
+        stale = [f for f in st.facts if f[0] in ('nonempty', 'emptystr') and 'each(' in f[1]]
+        for f in stale:
+            st.facts.discard(f)          # string facts about the previous generic element
         logs = dict(st.mon.get('itlog') or {})
         prev = logs.get(depth, ())
         adv = dict(st.mon.get('adv') or {})
@@ -790,6 +818,17 @@ class ModelMixin2:
                 self.hook('ext-subscript', st, node, obj=c, key=i)
                 return [(ExtV(f'{c.name}[{self.describe(i, st)}]'), st)]
             return [(Unknown('subscript'), st)]
+        if isinstance(c, Const) and isinstance(c.v, str) and isinstance(i, Const) and isinstance(i.v, int):
+            try:
+                return [(Const(c.v[i.v]), st)]
+            except IndexError:
+                return [(self.exc('IndexError', st, node, 'string index out of range'), st)]
+        if isinstance(c, StrV) and (isinstance(i, Const) and isinstance(i.v, int) or isinstance(i, (NumV, Unknown)) or (isinstance(i, Ref) and i.kind == 'idx')):
+            if isinstance(i, Const) and i.v in (0, -1) and ('nonempty', self.vkey(c, st)) in st.facts:
+                return [(StrV(('char',)), st)]
+            s2 = st.copy()
+            self.stats['forks'] += 1
+            return [(StrV(('char',)), st), (self.exc('IndexError', s2, node, f'string index out of range ({self.describe(c, s2)} may be empty)'), s2)]
         if isinstance(c, (StrV, Const)):
             return [(StrV(('char',)), st)]
         self.note(f'subscript of {type(c).__name__}')
